@@ -40,6 +40,12 @@ def dec(v):
             return datetime.datetime.fromisoformat(v[2:])
         if v.startswith("C:"):
             return complex(float(v[2:]), 1.0)
+        if v.startswith("M:"):
+            import decimal
+            return decimal.Decimal(v[2:])
+        if v.startswith("Q:"):
+            import fractions
+            return fractions.Fraction(v[2:])
     return v
 
 
@@ -61,6 +67,9 @@ POOLS = {
     # by its hash instead of the key itself confuses them
     "intcollide": [-1, -2, 5, 5 + (2 ** 61 - 1), None],
     "object": [1, "1", "a", True, "D:2020-01-01", None],   # mixed kinds: an object column
+    # an object column whose keys are EQUAL across exact types (1 == 1.0 == True == Decimal(1) == Fraction(1), 0 == 0.0 == -0.0):
+    # key equality is Python's ==, the cells carried along keep their own type
+    "numeq": [1, 1.0, True, "M:1", "Q:1", 0, 0.0, -0.0, "M:2.50", 2.5, "x", None],
 }
 
 
@@ -518,12 +527,17 @@ def random_keys(rng, nmax=40):
     lk, rk = [], []
     for _ in range(nk):
         for attempt in range(6):
-            kind = rng.choice(["int", "int", "str", "str", "bool", "date", "datetime", "boolint", "object", "intcollide", "intcollide"])
-            pool = rng.sample(POOLS[kind], rng.randint(1, min(4, len(POOLS[kind]))))
+            kind = rng.choice(["int", "int", "str", "str", "bool", "date", "datetime", "boolint", "object", "intcollide", "intcollide", "numeq"])
+            pool = rng.sample(POOLS[kind], rng.randint(1, min(4 if kind != "numeq" else 6, len(POOLS[kind]))))
             if all(p is None for p in pool):
                 pool = pool + [next(p for p in POOLS[kind] if p is not None)]
             cl = [rng.choice(pool) for _ in range(nl)]
             cr = [rng.choice(pool) for _ in range(nr)]
+            if kind == "numeq":
+                # a string among the numbers keeps the column an object column on both sides (a float column is refused as a key)
+                for c in (cl, cr):
+                    if c:
+                        c[rng.randrange(len(c))] = "x"
             kl, kr = _colkind(cl), _colkind(cr)
             if kl is None or kr is None or kl == kr:
                 break
